@@ -264,7 +264,7 @@ def dryrun_window(cfg, rng, res):
         dst, old = setup_dir(base, cfg, rng)
         before = faults.snapshot(base)
         w, wm = make_writer(cfg, dst)
-        mode = rng.choice(['putData_dryRun', 'compile_dryRun', 'compile_noWrites'])
+        mode = rng.choice(['putData_dryRun', 'compile_dryRun', 'compile_dryRun', 'compile_noWrites'])
         texts = dict((b, orch.base_text(b)) for b in orch.BASE)
         texts['AA-MIB'] = orch.module_text('AA-MIB', [], 's0')
         with fsmon.Watch(base) as wt:
@@ -284,6 +284,11 @@ def dryrun_window(cfg, rng, res):
                 r = c.compile('AA-MIB', **opts)
                 if r.get('AA-MIB') != 'compiled':
                     V('dryrun_compile_status', '%s: AA-MIB is %r' % (mode, r.get('AA-MIB')))
+                if opts.get('dryRun') and cfg['writer'] == 'file' and rng.random() < 0.8:
+                    # the index of what was (not) written, built in dry-run mode as mibdump does
+                    c.buildIndex(r, dryRun=True, **rng.choice([{}, {'ignoreErrors': True}]))
+                    res.count('dryrun_index_builds')
+                    mode += '+buildIndex'
         after = faults.snapshot(base)
         res.count('dryrun_windows')
         if wt.events:
